@@ -122,6 +122,10 @@ func checkSpendLoopExits(c *Ctx, pr *prioRoles, rule string) {
 					}
 				}
 			}
+			// ... and the pass cannot be skipped: no return is reachable without entering the loop
+			for _, ret := range returnsBypassing(fn, set) {
+				bad = append(bad, "the pass over the input is skipped altogether on the path to "+p.InstrPos(ret)+": the allotment of this priority stays unused although data may be waiting")
+			}
 			c.R.Check(len(bad) == 0, rule, fmt.Sprintf("%s#spend-loop.%d", p.FnKey(fn), n), p.InstrPos(recvSel), "the pass ends only when the allotment is spent, nothing is buffered / two ticks passed, the input is closed or a stop fired", strings.Join(dedup(bad), "; "))
 		}
 	}
@@ -345,4 +349,38 @@ func checkSupervisorWaits(c *Ctx, p *Prog, rule string) {
 	if n == 0 {
 		c.R.Fail(rule, p.Name+":priority.Simple#waits", "-", "UNRESOLVED-ANCHOR: the supervising goroutine of v1 Simple has no wait")
 	}
+}
+
+// returnsBypassing: the returns of fn that can be reached from its entry without entering any
+// block of the loop (an early return in front of the loop the rule is about).
+func returnsBypassing(fn *ssa.Function, loop map[*ssa.BasicBlock]bool) []*ssa.Return {
+	return returnsBypassingExcept(fn, loop, nil)
+}
+
+// returnsBypassingExcept: as returnsBypassing, not following the edges accepted by skip (the
+// pre-test of a rotated loop belongs to the loop).
+func returnsBypassingExcept(fn *ssa.Function, loop map[*ssa.BasicBlock]bool, skip func(e CondEdge) bool) []*ssa.Return {
+	var out []*ssa.Return
+	if len(fn.Blocks) == 0 || loop[fn.Blocks[0]] {
+		return nil
+	}
+	seen := map[*ssa.BasicBlock]bool{fn.Blocks[0]: true}
+	work := []*ssa.BasicBlock{fn.Blocks[0]}
+	for len(work) > 0 {
+		x := work[len(work)-1]
+		work = work[:len(work)-1]
+		if ret, ok := x.Instrs[len(x.Instrs)-1].(*ssa.Return); ok && x != fn.Recover {
+			out = append(out, ret)
+		}
+		for i, s := range x.Succs {
+			if skip != nil && len(x.Succs) == 2 && skip(CondEdge{x, i}) {
+				continue
+			}
+			if !seen[s] && !loop[s] {
+				seen[s] = true
+				work = append(work, s)
+			}
+		}
+	}
+	return out
 }
